@@ -27,7 +27,33 @@ func (p Persist) Store(ctx context.Context, name string, bytes []byte) error {
 	path := filepath.Join(p.basepath, name)
 	_, err := os.Stat(path)
 	if os.IsNotExist(err) {
-		return os.WriteFile(filepath.Join(p.basepath, name), bytes, 0644)
+		return writeFileAtomically(p.basepath, path, name, bytes)
+	}
+	return nil
+}
+
+// writeFileAtomically writes the bytes to a temporary file in the same directory
+// and renames it to its final name, so that a node's name only ever refers to
+// the complete node: a crash or a failed write leaves at most a stray temporary
+// file, never a partial node that Load would return and Store would not replace.
+func writeFileAtomically(dir, path, name string, bytes []byte) error {
+	tmp, err := os.CreateTemp(dir, ".tmp-"+name+"-*")
+	if err != nil {
+		return err
+	}
+	_, err = tmp.Write(bytes)
+	if cerr := tmp.Close(); err == nil {
+		err = cerr
+	}
+	if err == nil {
+		err = os.Chmod(tmp.Name(), 0644)
+	}
+	if err == nil {
+		err = os.Rename(tmp.Name(), path)
+	}
+	if err != nil {
+		os.Remove(tmp.Name())
+		return err
 	}
 	return nil
 }
